@@ -26,7 +26,7 @@ StageNo(s) == CHOOSE i \in 1..Len(Stages) : Stages[i] = s
 Op(id, where) == [id |-> id, where |-> where]
 Operators == {
   Op("not-ini", "read"), Op("text-before-header", "read"), Op("unclosed-header", "read"), Op("no-delimiter", "read"),
-  Op("placeholder-missing", "interpolate"), Op("placeholder-missing-section", "interpolate"), Op("placeholder-syntax", "interpolate"),
+  Op("placeholder-missing", "interpolate"), Op("placeholder-missing-section", "interpolate"), Op("placeholder-syntax", "interpolate"), Op("placeholder-circular", "interpolate"),
   Op("pair-key-no-dash", "dup-check"), Op("pair-key-two-dashes", "dup-check"), Op("adp-key-no-dash", "dup-check"),
   Op("target-unknown", "tabulation"), Op("target-empty", "tabulation"), Op("target-wrong-case", "tabulation"),
   Op("grid-all-three", "tabulation"), Op("grid-step-alone", "tabulation"), Op("grid-zero-nr", "tabulation"), Op("grid-negative-cutoff", "tabulation"),
